@@ -20,7 +20,7 @@ from ..simnet.pipe import Pipe
 PROPERTY = 'C08'
 LEVEL = 'fault_enumeration'
 TECHNIQUE = 'injection matrix (lifecycle point x exit kind x propagate/obey policies x position) on the simulated network; call-log + open-socket-table + run()-outcome monitors and a reference closure over the topology graph for propagation'
-RULE = ('injection point {before run(), init, late init, setup, process #0/#1/#5, deferred (callable) result, shutdown, external stop event while '
+RULE = ('injection point {construction of the filter object, before run(), init, late init, setup, process #0/#1/#5, deferred (callable) result, shutdown, external stop event while '
         'blocked} x how {exit(), exception, stop event} x policies prop/obey drawn per filter from {all, clean, error, none} '
         'x exiting filter at every position of chain / tee / tee-rejoin; exit_after as seconds, m:s string and @date-time; '
         'non-trivial = the exit happened after all links of the exiting filter were established (propagation judged) ; '
@@ -65,7 +65,7 @@ def gen_case(rng, seed, matrix=None):
     point, how = (matrix[2], matrix[3]) if matrix else rng.choice([
         ('setup', 'exit'), ('setup', 'raise'), ('process', 'exit'), ('process', 'raise'), ('process', 'stop_evt'), ('process', 'exit'), ('process', 'raise'),
         ('callable', 'raise'), ('callable', 'exit'), ('shutdown', 'exit'), ('shutdown', 'raise'), ('external-stop', 'stop_evt'), ('init', 'raise'),
-        ('init-late', 'raise'), ('init-late', 'exit'), ('init-late', 'stop_evt'), ('setup', 'stop_evt'), ('pre-run', 'stop_evt'), ('send', 'raise'), ('recv', 'raise')])
+        ('init-late', 'raise'), ('init-late', 'exit'), ('init-late', 'stop_evt'), ('setup', 'stop_evt'), ('pre-run', 'stop_evt'), ('send', 'raise'), ('recv', 'raise'), ('construct', 'raise')])
     node = p.by_id[x]
     k = rng.choice([0, 1, 5, 8, 8, 12])
     faults = []
@@ -102,6 +102,12 @@ def gen_case(rng, seed, matrix=None):
         faults.append({'at_ms': rng.randint(600, 1500), 'kind': 'stop_evt', 'node': x})
     elif point == 'init':
         node['config']['sources' if node['role'] != 'source' else 'outputs'] = ['http://not-an-mq-address']
+    elif point == 'construct':
+        # the filter object cannot even be constructed (normalize_config rejects the configuration)
+        node['config'].update(rng.choice([{'exit_after': 'not a time'}, {'mq_log': 'no-such-level'}, {'exit_after': ['a', 'list']}]))
+    for n in p.nodes:
+        if rng.random() < (0.3 if n['role'] == 'sink' else 0.1):
+            n['config']['outputs_metrics'] = f'ipc://{n["id"]}-metrics'      # documented: metrics on a dedicated output address (its own sender, also on a filter without outputs)
     link = {'max_delay_ms': rng.choice([0, 10, 50]), 'conn_ms': [0, 30], 'sub_ms': [0, 20]}
     return scenarios.finish(p, seed, link, 16000, family=fam, x=x, point=point, how=how, k=k, trigger=trigger, faults=faults, stop_when_all_done=False)
 
@@ -232,7 +238,7 @@ def judge_messages(w, scn, res, ends, x, kind, point):
     # ---- announce (only for the injected filter, whose kind is known, and only if its communication existed)
     ex = ends.get(x)
     had_mq = any(e.get('ev') in ('bind', 'connect') and e['node'] == x for e in w.sim.log)
-    if ex is not None and had_mq and point not in ('init',):
+    if ex is not None and had_mq and point not in ('init', 'construct'):
         bit = 1 if kind == 'clean' else 2
         oob_pub = [e for e in w.sim.log if e.get('ev') == 'pub' and e['node'] == x and b'"mid":-2' in e['env']]
         oob_push = [e for e in w.sim.log if e.get('ev') == 'push' and e['node'] == x and b'"mid":-2' in e['env']]
@@ -366,7 +372,7 @@ def run_shard(ctx):
         i = 0
         for pe in POL:
             for oe in POL:
-                for point, how in [('process', 'exit'), ('process', 'raise'), ('process', 'stop_evt'), ('callable', 'raise'), ('shutdown', 'raise'), ('shutdown', 'exit'), ('setup', 'raise'), ('setup', 'exit'), ('external-stop', 'stop_evt'), ('init', 'raise'), ('init-late', 'raise'), ('init-late', 'exit'), ('init-late', 'stop_evt'), ('setup', 'stop_evt'), ('pre-run', 'stop_evt'), ('send', 'raise'), ('recv', 'raise')]:
+                for point, how in [('process', 'exit'), ('process', 'raise'), ('process', 'stop_evt'), ('callable', 'raise'), ('shutdown', 'raise'), ('shutdown', 'exit'), ('setup', 'raise'), ('setup', 'exit'), ('external-stop', 'stop_evt'), ('init', 'raise'), ('init-late', 'raise'), ('init-late', 'exit'), ('init-late', 'stop_evt'), ('setup', 'stop_evt'), ('pre-run', 'stop_evt'), ('send', 'raise'), ('recv', 'raise'), ('construct', 'raise')]:
                     for rep in range(3):
                         i += 1
                         if ctx.mine(i):
